@@ -382,6 +382,17 @@ func enumerate(thorough bool, add0 func(s scen)) {
 			}
 		}
 	}
+	// X. one datagram of a side refused by its transport (the KeyUpdate itself, its acknowledgement, the answer to a
+	// requested update, a data record), then more updates and writes by that side and by its peer
+	for _, ops := range [][]opKind{{opUsNo, opUsNo, opWs, opWc}, {opUcNo, opUcNo, opWc, opWs}, {opUsReq, opWs, opWc, opUcNo, opWc}, {opUcReq, opWc, opWs, opUsNo, opWs}, {opUsNo, opWs, opUsNo, opWs}} {
+		for _, sd := range []side{cli, srv} {
+			for nth := 1; nth <= 4; nth++ {
+				for _, g := range []int{-1, 1} {
+					add(scen{V: base, Ops: ops, Gap: g, FailSide: sd, FailNth: nth})
+				}
+			}
+		}
+	}
 	// F. other configurations: connection IDs, other suites
 	others := []*checks.Variant{withCID(base)}
 	otherLen := 2
